@@ -285,6 +285,14 @@ def run(ctx):
             ("exact_model", lambda: ExactModel(Sphere(n=prior.Gaussian(1.5, 0.1), r=0.5, center=C3), medium_index=1.33,
                                                illum_wavelen=0.66, illum_polarization=(1, 0), noise_sd=0.1)),
         ]
+        import xarray as _xr
+        chan = lambda vals: _xr.DataArray(list(vals), dims=["illumination"], coords={"illumination": ["red", "green"]})
+        extra += [
+            # per-channel optics written as labelled arrays (string labels), one of them holding a prior
+            ("per_channel_array_optics", lambda: AlphaModel(Sphere(n=prior.Uniform(1.4, 1.6), r=0.5, center=C3), alpha=prior.Uniform(0.5, 1),
+                                                            illum_wavelen=chan([0.66, 0.52]), noise_sd=chan([0.05, 0.1]),
+                                                            medium_index=1.33, illum_polarization=(1, 0), theory=Mie())),
+        ]
         # ties across the sections of a model (a scatterer parameter with the scaling, a theory parameter or the
         # noise): only add_tie can make them, and they must come back
         def tied(make, names, new_name=None):
